@@ -284,33 +284,42 @@ def read_key_model(ix: Index) -> KeyModel:
     aliases: dict[str, ast.expr] = {}
     prefixes: dict[str, str | None] = {}
 
-    def class_sensitive(value: ast.AST, block: list[ast.stmt]) -> bool:
+    def with_local_defs(value: ast.AST, block: list[ast.stmt]) -> list[ast.AST]:
+        """the expression plus the right-hand sides of the local names it uses (hoisted
+        sub-expressions), transitively within the statement list"""
         exprs = [value]
-        used = {n.id for n in ast.walk(value) if isinstance(n, ast.Name)}
-        for st in block:
-            if isinstance(st, ast.Assign) and any(isinstance(t, ast.Name) and t.id in used for t in st.targets):
-                exprs.append(st.value)
-        for e in exprs:
-            for n in ast.walk(e):
-                if is_attr_of(n, obj, "__class__"):
-                    return True
-                if isinstance(n, ast.Call) and is_name(n.func, "type") and len(n.args) == 1 and is_name(n.args[0], obj):
-                    return True
-        return False
+        seen: set[str] = set()
+        i = 0
+        while i < len(exprs):
+            for n in ast.walk(exprs[i]):
+                if isinstance(n, ast.Name) and n.id != obj and n.id not in seen:
+                    seen.add(n.id)
+                    for st in block:
+                        if isinstance(st, ast.Assign) and any(is_name(t, n.id) for t in st.targets):
+                            exprs.append(st.value)
+            i += 1
+        return exprs
 
     def on_return(value: ast.AST | None, block: list[ast.stmt], st: ast.stmt) -> None:
         if value is None:
             raise AnalysisError("hash_mutable: bare return")
-        if _contains(value, lambda x: is_attr_of(x, obj, "__dict__") or (is_call_to(x, "vars") and x.args and is_name(x.args[0], obj))):
+        exprs = with_local_defs(value, block)
+
+        def has(pred) -> bool:
+            return any(pred(n) for e in exprs for n in ast.walk(e))
+
+        if has(lambda x: is_attr_of(x, obj, "__dict__") or (is_call_to(x, "vars") and x.args and is_name(x.args[0], obj))):
             km.fallback = True
             km.fallback_expr = ast.unparse(value)
-            km.fallback_class_sensitive = class_sensitive(value, block)
+            km.fallback_class_sensitive = has(
+                lambda x: is_attr_of(x, obj, "__class__") or (isinstance(x, ast.Call) and is_name(x.func, "type") and len(x.args) == 1 and is_name(x.args[0], obj))
+            )
             km.fallback_line = st.lineno
             km.order.append("fallback:obj.__dict__" + ("+class" if km.fallback_class_sensitive else ""))
-        elif _contains(value, lambda x: isinstance(x, ast.Call) and is_name(x.func, "hash") and len(x.args) == 1 and is_name(x.args[0], obj)):
+        elif has(lambda x: isinstance(x, ast.Call) and is_name(x.func, "hash") and len(x.args) == 1 and is_name(x.args[0], obj)):
             km.tries_hash = True
             km.order.append("hash(obj)")
-        elif _contains(value, lambda x: isinstance(x, ast.Call) and x.args and is_name(x.args[0], obj)):
+        elif has(lambda x: isinstance(x, ast.Call) and x.args and is_name(x.args[0], obj)):
             # e.g. sha1(obj): objects exposing the buffer protocol are hashed by content
             km.order.append("buffer:" + ast.unparse(value))
         else:
